@@ -65,7 +65,10 @@ def pipeline_key(tier, seed, tag):
     files.append(os.path.join(vlib.ROOT, "tools", "schemabuild.py"))
     mine = [os.path.join(vlib.SPEC, f) for f in os.listdir(vlib.SPEC) if f.endswith(".tla")]
     mine += [os.path.join(vlib.HARNESS, f) for f in os.listdir(vlib.HARNESS)]
-    mine += [os.path.join(vlib.ROOT, "tools", f) for f in ("viewpipe.py", "viewgen.py", "catalogue.py", "schema.py", "vlib.py")]
+    mine += [os.path.join(vlib.ROOT, "tools", f) for f in ("viewpipe.py", "viewgen.py", "catalogue.py", "schema.py", "vlib.py", "xmlimport.py")]
+    if tag.startswith("repo"):
+        import glob
+        files += sorted(glob.glob(os.path.join(vlib.REPO, "test", "schemas", "*.xml"))) + sorted(glob.glob(os.path.join(vlib.REPO, "benchmark", "*.xml")))
     return vlib.sha(tag, tier, str(seed), vlib.file_hash(files + mine))
 
 
@@ -266,6 +269,52 @@ def gen_visit_results(tier, seed):
     return run_catalogue("genvisit", gen_schemas(tier, seed), tier, seed, machine="visit",
                          configs_for=lambda i, S, base: base if tier == "thorough" else [base[(i + 2) % len(base)]],
                          k_for=lambda S: 8 if tier == "thorough" else 3)
+
+
+def repo_schemas(tier, seed, nmsg=6):
+    """the repository's OWN schemas (test/schemas/*.xml, benchmark schema) read by
+    tools/xmlimport.py - schemas that were not written for this specification.
+    quick: a seeded sample of messages per schema; thorough: every message."""
+    import glob
+    import xmlimport
+    out = []
+    paths = sorted(glob.glob(os.path.join(vlib.REPO, "test", "schemas", "*.xml"))) + \
+        sorted(glob.glob(os.path.join(vlib.REPO, "benchmark", "*.xml")))
+    for p in paths:
+        try:
+            S = xmlimport.load(p)
+        except Exception:
+            continue   # not a schema this transliteration reads (never a verdict)
+        if not S.get("package") or not S["messages"]:
+            continue
+        if tier != "thorough" and len(S["messages"]) > nmsg:
+            rnd = random.Random("%s-repo-%s" % (seed, S["package"]))
+            S = xmlimport.restrict(S, set(m["name"] for m in rnd.sample(S["messages"], nmsg)))
+        out.append(S)
+    return out
+
+
+def _rot(k):
+    return lambda i, S, base: [base[(i + k) % len(base)]]
+
+
+def repo_view_results(tier, seed):
+    return run_catalogue("repoview", repo_schemas(tier, seed), tier, seed,
+                         configs_for=(lambda i, S, base: base) if tier == "thorough" else _rot(0),
+                         k_for=lambda S: 12 if tier == "thorough" else 4)
+
+
+def repo_visit_results(tier, seed):
+    return run_catalogue("repovisit", repo_schemas(tier, seed), tier, seed, machine="visit",
+                         configs_for=(lambda i, S, base: base) if tier == "thorough" else _rot(1),
+                         k_for=lambda S: 8 if tier == "thorough" else 3)
+
+
+def repo_cursor_results(tier, seed):
+    # (every instance x landmark x member x wrapper is a transition: two messages per schema in the quick tier)
+    return run_catalogue("repocursor", repo_schemas(tier, seed, 2), tier, seed, machine="cursor",
+                         configs_for=(lambda i, S, base: base) if tier == "thorough" else _rot(2),
+                         k_for=lambda S: 2 if tier == "thorough" else 1)
 
 
 def header_results(tier, seed):
